@@ -187,6 +187,12 @@ def run(c):
             if o["o_line"] != o["w_line"] or o["o_group"] != "g%d" % o["group"]:
                 c.fail("oracle", "RuleInfo does not identify the group and the line of the alternative that matched", input=inp,
                        expected={"group": "g%d" % o["group"], "line": o["w_line"]}, observed={"group": o["o_group"], "line": o["o_line"]})
+            if o.get("o_file") != o.get("w_file"):
+                c.fail("oracle", "reported node lies in another file of the FileSet than the analysed one", input=inp, expected=o.get("w_file"),
+                       observed=o.get("o_file"))
+            if o.get("o_func", "") != o.get("w_func", ""):
+                c.fail("oracle", "ReportData.Func is not the function declaration around the reported match (\"\" = nil)", input=inp,
+                       expected=o.get("w_func", ""), observed=o.get("o_func", ""))
             if o["o_has_sugg"] != o["w_has_sugg"]:
                 c.fail("oracle", "suggestion presence differs", input=inp, expected=o["w_has_sugg"], observed=o["o_has_sugg"])
             elif o["o_has_sugg"]:
@@ -202,6 +208,21 @@ def run(c):
                 if o["at"] == "" and o["own_text"] and not o["ast_same"] and not guard_fixedtext(o["sugg_tpl"], o["caps"], False):
                     c.fail("oracle", "suggesting the pattern's own text changes the file's AST", input=inp, expected="AST unchanged",
                            observed={"replacement": repr(o["o_sugg"]), "parse_error": o.get("apply_err")})
+        for o in [x for x in obs if x["k"] == "engine-func"] + [x for x in comments if not x.get("missing")]:
+            # the reused ReportData must not leak the function of an earlier report into this one
+            c.count()
+            inp = {"group": o.get("o_group"), "message": repr(b64(o.get("o_msg"))), "TruncateLen": o["L"]}
+            if o.get("missing"):
+                c.fail("oracle", "the tail file did not produce one syntax-rule and two comment-rule reports", input={"TruncateLen": o["L"]},
+                       expected=3, observed=o["extra"])
+                continue
+            c.nontriv(("func", o.get("o_group"), o.get("o_func"), o["L"], o.get("o_msg")))
+            if o.get("o_func", "") not in o.get("w_funcs", [""]):
+                c.fail("oracle", "ReportData.Func names a function that has nothing to do with the reported node (left over from an earlier report)",
+                       input=inp, expected=o.get("w_funcs"), observed=o.get("o_func", ""))
+            if o.get("o_file") != o.get("w_file"):
+                c.fail("oracle", "reported node lies in another file of the FileSet than the analysed one", input=inp, expected=o.get("w_file"),
+                       observed=o.get("o_file"))
         for o in comments:
             c.count()
             if o.get("missing"):
